@@ -66,6 +66,15 @@ def run():
                 r = px.sym_sqrt(sp, xa * xa)
                 sp.check(r == abs(a), 'selftest', 'sqrt(%s^2)' % a)
             n += 5
+            # infinities: every comparison with +-inf is the constant it is for floats
+            for inf in (float('inf'), float('-inf')):
+                for op in (operator.lt, operator.le, operator.gt, operator.ge, operator.eq, operator.ne):
+                    if bool(op(xa, inf)) != op(a, inf) or bool(op(inf, xa)) != op(inf, a):
+                        raise SelfTestError('%s %s %s decided wrongly' % (a, op.__name__, inf))
+                    n += 2
+                if min(xa, inf) is not (xa if inf > 0 else inf) or max(inf, xa) is not (inf if inf > 0 else xa):
+                    raise SelfTestError('min/max with %s' % inf)
+                n += 2
         # ints
         for a in INTS:
             for b in INTS:
